@@ -253,6 +253,62 @@ where
             },
         );
     }
+    // ---- long slices: every length of the grid (powers of two and their neighbours, so any block size an implementation
+    // might process the slice in is crossed) x every starting offset into V x three fill patterns
+    let lens = long_slice_lengths();
+    let offs = nv.min(12);
+    let rad: Vec<u64> = vec![lens.len() as u64, offs, 3];
+    ctx.sweep(
+        &format!("{}.batch_normalization.long", name),
+        crate::infra::space(&rad),
+        |i| {
+            let d = unrank(i, &rad);
+            let pat = ["cyclic through all values", "unnormalized values only", "identity except first, middle and last"][d[2]];
+            json!({"length": lens[d[0]], "offset": d[1], "pattern": pat})
+        },
+        |i| {
+            let d = unrank(i, &rad);
+            let len = lens[d[0]];
+            let off = d[1] * (nv as usize / offs as usize).max(1);
+            let work: Vec<usize> = (0..v.len()).filter(|&k| !v[k].0.is_normalized()).collect();
+            let idx: Vec<usize> = (0..len)
+                .map(|j| match d[2] {
+                    0 => (off + j) % v.len(),
+                    1 => work[(off + j * 5) % work.len()],
+                    _ => {
+                        if j == 0 || j == len / 2 || j + 1 == len || j == len.saturating_sub(2) {
+                            work[(off + j) % work.len()]
+                        } else {
+                            v.iter().position(|e| e.1 == 0).unwrap()
+                        }
+                    }
+                })
+                .collect();
+            let mut s: Vec<C::P> = idx.iter().map(|&k| v[k].0).collect();
+            C::P::batch_normalization(&mut s);
+            for (j, (k, out)) in idx.iter().zip(s.iter()).enumerate() {
+                if g.abs(out) != Some(v[*k].1) {
+                    return Err(Fail::new(format!("{}: batch_normalization changed the point at index {} (slice length {})", name, j, len)));
+                }
+                if !out.is_normalized() {
+                    return Err(Fail::new(format!("{}: entry {} not normalized after batch_normalization (slice length {})", name, j, len)));
+                }
+            }
+            Ok(if len > 128 { "length > 128" } else if len > 16 { "length 17..128" } else { "length <= 16" })
+        },
+    );
+}
+
+/// slice lengths for the long batch_normalization sweeps: 2^k - 1, 2^k, 2^k + 1, 2^k + 2 up to 1026, and a few others
+pub fn long_slice_lengths() -> Vec<usize> {
+    let mut l = vec![4usize, 5, 6, 7, 10, 12, 20, 24, 48, 50, 96, 100, 192, 200, 300, 384, 385, 640, 641, 1000];
+    for k in 3..=10 {
+        let b = 1usize << k;
+        l.extend([b - 1, b, b + 1, b + 2]);
+    }
+    l.sort();
+    l.dedup();
+    l
 }
 
 pub fn all_nonzero<F: ToyField>() -> Vec<F> {
